@@ -10,7 +10,7 @@
    16 hops from_modules supports; [closed w]: every far end is a gate of a
    module of the world. *)
 From Coq Require Import List Arith.
-From DesVerif Require Import Topo.Model Topo.Graph Topo.FromGates Topo.Spanned Topo.Conn Topo.Filter Topo.Bfs.
+From DesVerif Require Import Topo.Model Topo.Graph Topo.FromGates Topo.Spanned Topo.Conn Topo.Filter Topo.Bfs Topo.World.
 Import ListNotations.
 
 (* Global view: one node per module, in module order; node i carries, in gate
@@ -101,6 +101,16 @@ Theorem C19_first_hop_of_shortest_path : forall t s ms,
       (v = s \/ ~ treach t s v -> lookup mv m = None).
 Proof. exact first_hop_of_shortest_path. Qed.
 Print Assumptions C19_first_hop_of_shortest_path.
+
+(* The hypotheses are met by every world the correspondence check can wire
+   (Model.build_world: any gate counts, any list of declared chains; chains
+   that re-use or invent gates are not wired): always closed, and short when
+   every declared chain has at most 17 gates = 16 hops. *)
+Theorem C19_script_worlds : forall counts chains,
+  closed (build_world counts chains) /\
+  ((forall c, In c chains -> length (pairs (tl c)) <= S MAX_HOPS) -> short (build_world counts chains)).
+Proof. intros counts chains. split; [apply build_world_closed|apply build_world_short]. Qed.
+Print Assumptions C19_script_worlds.
 
 (* Non-vacuity: the triangle s-a, s-b, a-b with the gates of s created in the
    order to-b, to-a (s = module 0, a = 1, b = 2). *)
